@@ -142,19 +142,44 @@ class C05(DimwiseCheck):
             "reported value is compared with (1) the coefficient-weighted sum of component results recomputed by an independent composite "
             "trapezoid on the reported point lists, (2) evaluate_final_combi() (twice) on a deep copy, (3) the same history run with "
             "reevaluate_at_end=True, (5) sum w f over get_points_and_weights(). distinct_nontrivial counts distinct refined structures at which a stop was checked")
-    expected_probes = ["rebalancing", "new_lmax", "recalculating", "stop_checked", "continued"]
+    expected_probes = ["rebalancing", "new_lmax", "recalculating", "stop_checked", "continued", "standard_call_checked", "dim_adaptive_refined"]
+    real = REAL + ["SpatiallyAdaptiveExtendScheme", "RefinementObjectExtendSplit", "TrapezoidalGrid", "StandardCombi", "DimAdaptiveCombi"]
+    stub = STUB + ["DimAdaptiveCombi.calculate_surplus answers (keyed draws: the refinement schedule)"]
 
     def gen(self, rk, tier, idx):
         r = stream(rk, "cfg")
-        cfg = DS.gen_cfg(r, tier)
+        strategy = r.choice(["dimension_wise"] * 5 + ["extend_split"] * 4 + ["standard", "dim_adaptive"])
+        if strategy in ("standard", "dim_adaptive"):
+            from engines import combi_drivers as CD
+            cfg = CD.gen_standard_cfg(r, tier) if strategy == "standard" else CD.gen_dimadaptive_cfg(r, tier)
+            return {"config": cfg, "ops": []}
+        if strategy == "extend_split":
+            from engines import extendsplit_sim as ES
+            cfg = ES.gen_cfg(r, tier)
+            cfg["version"] = 0          # the statement names extend-split in its default coarsening version
+            if cfg["lmin"] == cfg["lmax"]:
+                cfg["automatic"] = False   # automatic decision at lmin == lmax raises (known finding of C07), not this property's subject
+            cfg["max_leaves"] = 10 ** 6
+        else:
+            cfg = DS.gen_cfg(r, tier)
+            cfg["max_intervals"] = 10 ** 6      # the point limits of the schedule bound the size here
+        cfg["strategy"] = strategy
         cfg["use_epoch"] = False
         cfg["nnoise"] = r.choice([1, 2, 3])
-        cfg["max_intervals"] = 10 ** 6      # the point limits of the schedule bound the size here
         cfg["max_points"] = 10 ** 6
         return {"config": cfg, "ops": gen_limit_ops(stream(rk, "ops"), tier)}
 
     def simplify(self, s):
-        for c in DS.simplify_cfg(s):
+        if s["config"].get("strategy") in ("standard", "dim_adaptive"):
+            return
+        if s["config"].get("strategy") == "extend_split":
+            from engines import extendsplit_sim as ES
+            gen = ES.simplify_cfg(s)
+        else:
+            gen = DS.simplify_cfg(s)
+        for c in gen:
+            if c["config"].get("strategy") == "extend_split" and c["config"].get("version") != 0:
+                continue
             yield c
         for i, op in enumerate(s["ops"]):
             m = op[1]["max_evaluations"]
@@ -164,26 +189,39 @@ class C05(DimwiseCheck):
 
     def drive(self, sched, ctx, reevaluate):
         cfg = sched["config"]
-        sim = DS.DimwiseSim(cfg, sched["rk"], ctx, [])
+        if cfg.get("strategy") == "extend_split":
+            from engines import extendsplit_sim as ES
+            sim = ES.ExtendSplitSim(cfg, sched["rk"], ctx, [])
+        else:
+            sim = DS.DimwiseSim(cfg, sched["rk"], ctx, [])
+        sim.eval_cap = 400
         sim.build()
         orc = DS.ResultOracle(sim)
         out = []
         for i, op in enumerate(sched["ops"]):
-            if op[0] == "run":
-                ret = sim.perform(tol=-1.0, max_evaluations=op[1]["max_evaluations"], reevaluate_at_end=reevaluate)
-            else:
-                ctx.probe("continued")
-                ret = sim.cont(tol=-1.0, max_evaluations=op[1]["max_evaluations"])
+            try:
+                if op[0] == "run":
+                    ret = sim.perform(tol=-1.0, max_evaluations=op[1]["max_evaluations"], reevaluate_at_end=reevaluate)
+                else:
+                    ctx.probe("continued")
+                    ret = sim.cont(tol=-1.0, max_evaluations=op[1]["max_evaluations"])
+            except DS.StopRun:
+                raise Excluded("no stop within the evaluation cap")
             ctx.state(sim.structure_key())
             out.append((ret, sim, orc))
             yield i, op, ret, sim, orc
 
     def execute(self, sched, ctx):
         import numpy as np
+        st = sched["config"].get("strategy")
+        if st in ("standard", "dim_adaptive"):
+            from engines import combi_drivers as CD
+            (CD.run_standard if st == "standard" else CD.run_dimadaptive)(sched["config"], sched["rk"], ctx)
+            return
         plain = []
         for i, op, ret, sim, orc in self.drive(sched, ctx, False):
             label = "%s#%d" % (op[0], i)
-            want, S, n = orc.at_stop(ret[3], label)
+            want, S, n = orc.at_stop(ret[3], label, points_weights=(sim.strategy == "dimension_wise"))
             ctx.probe("stop_checked")
             plain.append((np.array(ret[3], dtype=float), S, n, orc))
         if "result" in ctx.tainted:
